@@ -192,6 +192,225 @@ Proof.
     congruence.
 Qed.
 
+(* ------------------------------------------------------------ events.callbacks over time *)
+
+Definition hit (c : evclass) (p : Z) (e : evclass * Z) : bool := (snd e =? p) && descends c (fst e).
+
+Lemma nd_cons : forall e r c p,
+  notify_deliveries (e :: r) c p = (if hit c p e then 1 else 0) + notify_deliveries r c p.
+Proof.
+  intros. unfold notify_deliveries. cbn [filter]. fold (hit c p e).
+  destruct (hit c p e); cbn [length]; lia.
+Qed.
+
+Lemma nd_nil : forall c p, notify_deliveries [] c p = 0.
+Proof. reflexivity. Qed.
+
+Lemma nd_app : forall a b c p,
+  notify_deliveries (a ++ b) c p = notify_deliveries a c p + notify_deliveries b c p.
+Proof.
+  induction a as [|e r IH]; intros b c p.
+  - rewrite nd_nil. reflexivity.
+  - cbn [app]. rewrite !nd_cons, IH. lia.
+Qed.
+
+Lemma nd_subscribe : forall cbs t q c p,
+  notify_deliveries (subscribe cbs t q) c p
+  = notify_deliveries cbs c p + (if (q =? p) && descends c t then 1 else 0).
+Proof.
+  intros. unfold subscribe. rewrite nd_app, nd_cons, nd_nil. unfold hit. cbn [fst snd]. lia.
+Qed.
+
+Lemma cb_eqb_eq : forall a b, cb_eqb a b = true -> a = b.
+Proof.
+  intros [t p] [t' p'] H. unfold cb_eqb in H. cbn [fst snd] in H.
+  apply andb_true_iff in H. destruct H as [H1 H2].
+  apply evclass_eqb_eq in H1. apply Z.eqb_eq in H2. subst. reflexivity.
+Qed.
+
+Lemma cb_eqb_refl : forall a, cb_eqb a a = true.
+Proof. intros [t p]. unfold cb_eqb. cbn [fst snd]. rewrite evclass_eqb_refl, Z.eqb_refl. reflexivity. Qed.
+
+(* unsubscribe removes exactly one (type, callback) entry *)
+Lemma nd_unsubscribe : forall cbs t q cbs' c p, unsubscribe cbs t q = Some cbs' ->
+  notify_deliveries cbs' c p
+  = notify_deliveries cbs c p - (if (q =? p) && descends c t then 1 else 0).
+Proof.
+  induction cbs as [|e r IH]; intros t q cbs' c p H; [discriminate|].
+  cbn [unsubscribe] in H. destruct (cb_eqb e (t, q)) eqn:E.
+  - apply cb_eqb_eq in E. subst e. injection H as <-. rewrite nd_cons. unfold hit. cbn [fst snd]. lia.
+  - destruct (unsubscribe r t q) as [r'|] eqn:U; [|discriminate]. injection H as <-.
+    rewrite !nd_cons, (IH t q r' c p U). lia.
+Qed.
+
+Lemma unsubscribe_some : forall cbs t q, In (t, q) cbs -> exists cbs', unsubscribe cbs t q = Some cbs'.
+Proof.
+  induction cbs as [|e r IH]; intros t q H; [contradiction|].
+  cbn [unsubscribe]. destruct (cb_eqb e (t, q)) eqn:E; [eexists; reflexivity|].
+  destruct H as [H|H]; [subst e; rewrite cb_eqb_refl in E; discriminate|].
+  destruct (IH t q H) as [r' ->]. eexists. reflexivity.
+Qed.
+
+Lemma unsubscribe_keeps : forall cbs t q cbs' e, unsubscribe cbs t q = Some cbs' ->
+  In e cbs -> e <> (t, q) -> In e cbs'.
+Proof.
+  induction cbs as [|x r IH]; intros t q cbs' e H Hin Hne; [contradiction|].
+  cbn [unsubscribe] in H. destruct (cb_eqb x (t, q)) eqn:E.
+  - apply cb_eqb_eq in E. subst x. injection H as <-. destruct Hin as [Hin|Hin]; [congruence | assumption].
+  - destruct (unsubscribe r t q) as [r'|] eqn:U; [|discriminate]. injection H as <-.
+    destruct Hin as [Hin|Hin]; [left; assumption | right; eapply IH; eassumption].
+Qed.
+
+(* number of types of l the class c is an instance of *)
+Definition kcount (l : list evclass) (c : evclass) : Z :=
+  Z.of_nat (length (filter (fun t => descends c t) l)).
+
+Lemma kcount_cons : forall t l c, kcount (t :: l) c = (if descends c t then 1 else 0) + kcount l c.
+Proof. intros. unfold kcount. cbn [filter]. destruct (descends c t); cbn [length]; lia. Qed.
+
+Lemma nd_subscribe_all : forall l cbs q c p,
+  notify_deliveries (fold_left (fun cb t => subscribe cb t q) l cbs) c p
+  = notify_deliveries cbs c p + (if q =? p then kcount l c else 0).
+Proof.
+  induction l as [|t r IH]; intros cbs q c p.
+  - cbn [fold_left]. unfold kcount. cbn. destruct (q =? p); lia.
+  - cbn [fold_left]. rewrite IH, nd_subscribe, kcount_cons. destruct (q =? p); cbn [andb]; lia.
+Qed.
+
+Lemma nd_unsubscribe_all : forall l cbs q cbs' c p, unsubscribe_all cbs l q = Some cbs' ->
+  notify_deliveries cbs' c p
+  = notify_deliveries cbs c p - (if q =? p then kcount l c else 0).
+Proof.
+  induction l as [|t r IH]; intros cbs q cbs' c p H.
+  - cbn [unsubscribe_all] in H. injection H as <-. unfold kcount. cbn. destruct (q =? p); lia.
+  - cbn [unsubscribe_all] in H. destruct (unsubscribe cbs t q) as [c1|] eqn:U; [|discriminate].
+    rewrite (IH c1 q cbs' c p H), (nd_unsubscribe cbs t q c1 c p U), kcount_cons.
+    destruct (q =? p); cbn [andb]; lia.
+Qed.
+
+Lemma unsubscribe_all_keeps : forall l cbs q cbs' e, unsubscribe_all cbs l q = Some cbs' ->
+  In e cbs -> snd e <> q -> In e cbs'.
+Proof.
+  induction l as [|t r IH]; intros cbs q cbs' e H Hin Hne.
+  - cbn in H. injection H as <-. assumption.
+  - cbn [unsubscribe_all] in H. destruct (unsubscribe cbs t q) as [c1|] eqn:U; [|discriminate].
+    eapply IH; [eassumption | | assumption].
+    eapply unsubscribe_keeps; [eassumption | assumption |]. intros ->. apply Hne. reflexivity.
+Qed.
+
+Lemma unsubscribe_all_some : forall l cbs q, NoDup l -> (forall t, In t l -> In (t, q) cbs) ->
+  exists cbs', unsubscribe_all cbs l q = Some cbs'.
+Proof.
+  induction l as [|t r IH]; intros cbs q ND H; [eexists; reflexivity|].
+  inversion ND as [|x y Hnotin ND']; subst.
+  destruct (unsubscribe_some cbs t q (H t (or_introl eq_refl))) as [c1 U].
+  cbn [unsubscribe_all]. rewrite U. apply IH; [assumption|].
+  intros t' Ht'. eapply unsubscribe_keeps; [eassumption | apply H; right; assumption |].
+  intros E. injection E as ->. contradiction.
+Qed.
+
+Lemma subscribe_all_in : forall l cbs q,
+  (forall e, In e cbs -> In e (fold_left (fun cb t => subscribe cb t q) l cbs)) /\
+  (forall t, In t l -> In (t, q) (fold_left (fun cb t => subscribe cb t q) l cbs)).
+Proof.
+  induction l as [|t r IH]; intros cbs q; [split; [auto | intros t []]|].
+  cbn [fold_left]. destruct (IH (subscribe cbs t q) q) as [K N]. split.
+  - intros e He. apply K. unfold subscribe. apply in_or_app. left. assumption.
+  - intros t' [<-|Ht'].
+    + apply K. unfold subscribe. apply in_or_app. right. left. reflexivity.
+    + apply N. assumption.
+Qed.
+
+Lemma deliveries_kcount : forall pe c, deliveries pe c = kcount (subscription_types pe) c.
+Proof. reflexivity. Qed.
+
+(* UNSUBSCRIBE FRAME: when pool p unsubscribes from its types, the deliveries to
+   every other pool are unchanged and those to p drop by exactly its own share *)
+Theorem unsubscribe_frame : forall cbs pe p cbs', pool_unsubscribe cbs pe p = Some cbs' ->
+  (forall c q, q <> p -> notify_deliveries cbs' c q = notify_deliveries cbs c q) /\
+  (forall c, notify_deliveries cbs' c p = notify_deliveries cbs c p - deliveries pe c).
+Proof.
+  intros cbs pe p cbs' H. unfold pool_unsubscribe in H. split.
+  - intros c q Hq. rewrite (nd_unsubscribe_all _ _ _ _ c q H).
+    replace (p =? q) with false by (symmetry; apply Z.eqb_neq; auto). lia.
+  - intros c. rewrite (nd_unsubscribe_all _ _ _ _ c p H), Z.eqb_refl, deliveries_kcount. reflexivity.
+Qed.
+
+(* the daemon's pools over time *)
+Lemma reg_get_del : forall reg p q, reg_get (reg_del reg p) q = if q =? p then None else reg_get reg q.
+Proof.
+  induction reg as [|[k pe] r IH]; intros p q.
+  - simpl. destruct (q =? p); reflexivity.
+  - unfold reg_del. cbn [filter fst]. fold (reg_del r p). destruct (k =? p) eqn:E; cbn [negb].
+    + rewrite IH. cbn [reg_get]. apply Z.eqb_eq in E. subst k.
+      destruct (q =? p) eqn:E2; [reflexivity|]. rewrite Z.eqb_sym, E2. reflexivity.
+    + cbn [reg_get]. rewrite IH. destruct (k =? q) eqn:E2; [|reflexivity].
+      apply Z.eqb_eq in E2. subst k. rewrite E. reflexivity.
+Qed.
+
+Definition WInv (w : world) : Prop :=
+  match w with
+  | WorldError => False
+  | World cbs reg =>
+    (forall c p, notify_deliveries cbs c p
+                 = match reg_get reg p with Some pe => deliveries pe c | None => 0 end) /\
+    (forall p pe, reg_get reg p = Some pe -> forall t, In t (subscription_types pe) -> In (t, p) cbs)
+  end.
+
+Lemma wstep_inv : forall w o, WInv w -> WInv (wstep w o).
+Proof.
+  intros [cbs reg|] o H; [|contradiction]. destruct H as [H1 H2].
+  destruct o as [p pe|p]; cbn [wstep].
+  - destruct (reg_get reg p) as [pe0|] eqn:G; [split; assumption|].
+    unfold pool_subscribe. split.
+    + intros c q. rewrite nd_subscribe_all, H1. cbn [reg_get]. destruct (p =? q) eqn:E.
+      * apply Z.eqb_eq in E. subst q. rewrite G. rewrite deliveries_kcount. lia.
+      * lia.
+    + intros q pe' Hq t Ht. cbn [reg_get] in Hq.
+      destruct (subscribe_all_in (subscription_types pe) cbs p) as [K N].
+      destruct (p =? q) eqn:E.
+      * apply Z.eqb_eq in E. subst q. injection Hq as <-. apply N. assumption.
+      * apply K. eapply H2; eassumption.
+  - destruct (reg_get reg p) as [pe|] eqn:G; [|split; assumption].
+    destruct (unsubscribe_all_some (subscription_types pe) cbs p (subscription_nodup pe) (H2 p pe G)) as [cbs' U].
+    unfold pool_unsubscribe. rewrite U. split.
+    + intros c q. rewrite (nd_unsubscribe_all _ _ _ _ c q U), H1, reg_get_del. destruct (q =? p) eqn:E.
+      * apply Z.eqb_eq in E. subst q. rewrite G, Z.eqb_refl, deliveries_kcount. lia.
+      * rewrite Z.eqb_sym, E. lia.
+    + intros q pe' Hq t Ht. rewrite reg_get_del in Hq. destruct (q =? p) eqn:E; [discriminate|].
+      eapply unsubscribe_all_keeps; [eassumption | eapply H2; eassumption |].
+      cbn [snd]. intro X. subst q. rewrite Z.eqb_refl in E. discriminate.
+Qed.
+
+Lemma wrun_inv : forall l w, WInv w -> WInv (fold_left wstep l w).
+Proof.
+  induction l as [|o r IH]; intros w H; [assumption|]. cbn [fold_left]. apply IH. apply wstep_inv. assumption.
+Qed.
+
+(* POOLS OVER TIME: after any history of pool additions and removals (including
+   refused additions, removals of absent names, re-additions) the unsubscription
+   never fails, every pool present receives each event exactly once if it is an
+   instance of one of its configured types and never otherwise, and a pool that
+   was removed receives nothing *)
+Theorem pools_over_time : forall l,
+  match wrun l with
+  | WorldError => False
+  | World cbs reg =>
+    forall c p, notify_deliveries cbs c p
+                = match reg_get reg p with
+                  | Some pe => if existsb (fun t => descends c t) pe then 1 else 0
+                  | None => 0
+                  end
+  end.
+Proof.
+  intros l.
+  assert (I0 : WInv (World [] [])).
+  { split; [intros c p; reflexivity | intros p pe H; discriminate H]. }
+  pose proof (wrun_inv l _ I0) as H.
+  unfold wrun. destruct (fold_left wstep l (World [] [])) as [cbs reg|]; [|contradiction].
+  destruct H as [H1 _]. intros c p. rewrite H1. destruct (reg_get reg p); [apply one_delivery_per_pool | reflexivity].
+Qed.
+
 Local Transparent descends.
 
 Example one_delivery_example :
@@ -200,4 +419,11 @@ Example one_delivery_example :
   deliveries [ProcessStateRunningEvent; ProcessStateEvent] ProcessStateRunningEvent = 1 /\
   deliveries [Tick5Event; TickEvent; Event] Tick5Event = 1 /\
   deliveries [Tick5Event; TickEvent] ProcessStateRunningEvent = 0.
+Proof. vm_compute. repeat split. Qed.
+
+Example pools_over_time_example :
+  let w := wrun [WAdd 1 [ProcessStateEvent; TickEvent]; WAdd 2 [ProcessStateRunningEvent; ProcessStateEvent];
+                 WRemove 1; WAdd 1 [Event]; WRemove 2] in
+  world_deliveries w ProcessStateRunningEvent 1 = 1 /\ world_deliveries w ProcessStateRunningEvent 2 = 0 /\
+  world_deliveries (wrun [WAdd 1 [ProcessStateEvent]; WAdd 2 [ProcessStateEvent]; WRemove 1]) ProcessStateExitedEvent 2 = 1.
 Proof. vm_compute. repeat split. Qed.
